@@ -337,6 +337,13 @@ template <typename SELF, typename BASE> bool thisok(const BASE* self);
 #define VX_PLAN_CALLBACKS(SELF, BASE, SID, INJ)
 #endif
 
+// the usual idiom of the library's users: keep the base's event-templated handlers visible next to the own, event-specific ones
+// (with injections the names would be ambiguous, so only machines without any)
+#if VX_INJ_R == 0 && VX_INJ_S0 == 0 && VX_INJ_S1 == 0 && VX_INJ_S2 == 0 && VX_INJ_S3 == 0
+#define VX_USING_BASE_HANDLERS using Base::preReact; using Base::react; using Base::postReact; using Base::query;
+#else
+#define VX_USING_BASE_HANDLERS
+#endif
 template <int I, int J> struct Inj : FSM::State { VX_CALLBACKS(St<I>, Inj, I, J) };
 template <int J> struct RInj : FSM::State { VX_CALLBACKS(Rt, RInj, ROOT, J) };
 
@@ -358,6 +365,7 @@ template <int I> struct St : StBase<I, INJ_OF[I]>::Type {
 	using Base = typename StBase<I, INJ_OF[I]>::Type;
 	using GuardControl = typename Base::GuardControl; using PlanControl = typename Base::PlanControl;
 	using FullControl = typename Base::FullControl; using ConstControl = typename Base::ConstControl;
+	VX_USING_BASE_HANDLERS
 	VX_CALLBACKS(St<I>, St<I>, I, 0)
 	uint8_t vx_entered = 0;   // user data kept in the state object: set by enter(), reset by exit() (observed at every callback; a copy must carry it)
 };
@@ -384,6 +392,7 @@ struct Rt : RtBase<INJ_ROOT>::Type {
 	using Base = RtBase<INJ_ROOT>::Type;
 	using GuardControl = Base::GuardControl; using PlanControl = Base::PlanControl;
 	using FullControl = Base::FullControl; using ConstControl = Base::ConstControl;
+	VX_USING_BASE_HANDLERS
 	VX_CALLBACKS(Rt, Rt, ROOT, 0)
 	VX_PLAN_CALLBACKS(Rt, Rt, ROOT, 0)
 	uint8_t vx_entered = 0;
